@@ -69,6 +69,7 @@ type step struct {
 	Keys []string  `json:"keys"`
 	Vals []string  `json:"vals"`
 	TTL  int       `json:"ttl"`
+	Fail bool      `json:"fail"`
 	Rep  reply     `json:"rep"`
 	ND   bool      `json:"nd"`
 	Bk   []bkEntry `json:"bk"`
@@ -170,9 +171,58 @@ func (c *concretiser) physical(ver int, k string) string {
 // ---------------------------------------------------------------------------------------------
 // the real stack
 
+// faultyBackend is the mock backend with a switch: while failing is set every call returns errBackend
+// and does nothing (SetAsync / SetMultiAsync drop the write silently, as a failed asynchronous write does).
+type faultyBackend struct {
+	*cache.MockCache
+	failing bool
+}
+
+var errBackend = errors.New("c19: injected backend failure")
+
+func (f *faultyBackend) SetAsync(key string, value []byte, ttl time.Duration) {
+	if !f.failing {
+		f.MockCache.SetAsync(key, value, ttl)
+	}
+}
+func (f *faultyBackend) SetMultiAsync(data map[string][]byte, ttl time.Duration) {
+	if !f.failing {
+		f.MockCache.SetMultiAsync(data, ttl)
+	}
+}
+func (f *faultyBackend) Set(ctx context.Context, key string, value []byte, ttl time.Duration) error {
+	if f.failing {
+		return errBackend
+	}
+	return f.MockCache.Set(ctx, key, value, ttl)
+}
+func (f *faultyBackend) Add(ctx context.Context, key string, value []byte, ttl time.Duration) error {
+	if f.failing {
+		return errBackend
+	}
+	return f.MockCache.Add(ctx, key, value, ttl)
+}
+func (f *faultyBackend) Delete(ctx context.Context, key string) error {
+	if f.failing {
+		return errBackend
+	}
+	return f.MockCache.Delete(ctx, key)
+}
+func (f *faultyBackend) GetMultiWithError(ctx context.Context, keys []string, opts ...cache.Option) (map[string][]byte, error) {
+	if f.failing {
+		return map[string][]byte{}, errBackend
+	}
+	return f.MockCache.GetMultiWithError(ctx, keys, opts...)
+}
+func (f *faultyBackend) GetMulti(ctx context.Context, keys []string, opts ...cache.Option) map[string][]byte {
+	r, _ := f.GetMultiWithError(ctx, keys, opts...)
+	return r
+}
+
 type realStack struct {
-	mock  *cache.MockCache
-	views map[int]cache.Cache
+	mock    *cache.MockCache
+	backend *faultyBackend
+	views   map[int]cache.Cache
 }
 
 func hasKind(stack []string, k string) bool {
@@ -200,13 +250,14 @@ func wrap(kind string, below cache.Cache, b *behaviour, view int) (cache.Cache, 
 // the views, the Versioned layer and everything above exist once per view.
 func build(b *behaviour, nviews int) (*realStack, error) {
 	rs := &realStack{mock: cache.NewMockCache(), views: map[int]cache.Cache{}}
+	rs.backend = &faultyBackend{MockCache: rs.mock}
 	verPos := -1
 	for i, k := range b.Stack {
 		if k == "ver" {
 			verPos = i
 		}
 	}
-	var shared cache.Cache = rs.mock
+	var shared cache.Cache = rs.backend
 	var err error
 	for i := len(b.Stack) - 1; i > verPos; i-- {
 		if shared, err = wrap(b.Stack[i], shared, b, 0); err != nil {
@@ -372,8 +423,10 @@ func execute(cands []*behaviour, c *concretiser, nviews int) (survivor int, last
 		var opErr error
 		var getRes map[string][]byte
 		panicked := ""
+		rs.backend.failing = s.Fail
 		func() {
 			defer func() {
+				rs.backend.failing = false
 				if r := recover(); r != nil {
 					panicked = fmt.Sprint(r)
 				}
@@ -425,6 +478,10 @@ func execute(cands []*behaviour, c *concretiser, nviews int) (survivor int, last
 			switch {
 			case panicked != "":
 				what, got, want = s.Name+":panic", panicked, "no panic"
+			case s.Name == "add" && s.Fail:
+				if opErr == nil || errors.Is(opErr, cache.ErrNotStored) {
+					what, got, want = "add:backend-error-not-returned", fmt.Sprint(opErr), "the backend's error"
+				}
 			case s.Name == "add":
 				switch {
 				case opErr == nil && !e.Rep.Stored:
@@ -436,8 +493,8 @@ func execute(cands []*behaviour, c *concretiser, nviews int) (survivor int, last
 				}
 			case s.Name == "get":
 				what, got, want = compareGet(c, s.Keys, e.Rep.Found, e.Rep.Err, getRes, opErr)
-			case opErr != nil:
-				what, got, want = s.Name+":error", opErr.Error(), nil
+			case (opErr != nil) != e.Rep.Err:
+				what, got, want = s.Name+":error", fmt.Sprint(opErr), e.Rep.Err
 			}
 			if what == "" {
 				what, got, want = compareBackend(c, rs, e.Bk)
@@ -504,7 +561,7 @@ func sameOps(a, b *behaviour) bool {
 	}
 	for i := range a.Steps {
 		x, y := &a.Steps[i], &b.Steps[i]
-		if x.Name != y.Name || x.W != y.W || x.TTL != y.TTL || fmt.Sprint(x.Keys, x.Vals) != fmt.Sprint(y.Keys, y.Vals) {
+		if x.Name != y.Name || x.W != y.W || x.TTL != y.TTL || x.Fail != y.Fail || fmt.Sprint(x.Keys, x.Vals) != fmt.Sprint(y.Keys, y.Vals) {
 			return false
 		}
 	}
@@ -555,7 +612,7 @@ func identity(b *behaviour) [20]byte {
 	h := sha1.New()
 	fmt.Fprint(h, b.Stack, b.Cap, b.DTTL)
 	for _, s := range b.Steps {
-		fmt.Fprint(h, "|", s.Name, s.W, s.Keys, s.Vals, s.TTL)
+		fmt.Fprint(h, "|", s.Name, s.W, s.Keys, s.Vals, s.TTL, s.Fail)
 	}
 	var out [20]byte
 	copy(out[:], h.Sum(nil))
@@ -587,10 +644,11 @@ func caseOf(b *behaviour, c *concretiser, d *diff) any {
 		Keys []string `json:"keys,omitempty"`
 		Vals []string `json:"vals,omitempty"`
 		TTL  int      `json:"ttl"`
+		Fail bool     `json:"backend_fails,omitempty"`
 	}
 	ss := []slim{}
 	for _, s := range steps {
-		ss = append(ss, slim{s.Name, s.W, s.Keys, s.Vals, s.TTL})
+		ss = append(ss, slim{s.Name, s.W, s.Keys, s.Vals, s.TTL, s.Fail})
 	}
 	return map[string]any{"stack": b.Stack, "cap": b.Cap, "dttl": b.DTTL, "ops": ss, "failing_step": d.step,
 		"concrete": c.desc, "sweep": d.step >= len(b.Steps)}
@@ -935,4 +993,34 @@ func indexOf(s []int, v int) int {
 		}
 	}
 	return 0
+}
+
+// TestFindingFailedSet (VERIF_FINDING=1; not part of the tiers) reproduces on the real code what TLC reports for
+// MC_faults_finding.cfg: LRUCache.Set caches the value locally although the Set of the layer below failed, so a
+// write the client was told had failed is read back, and later the older backend value resurfaces.
+func TestFindingFailedSet(t *testing.T) {
+	if os.Getenv("VERIF_FINDING") == "" {
+		t.Skip("VERIF_FINDING not set")
+	}
+	synctest.Test(t, func(t *testing.T) {
+		ctx := context.Background()
+		mock := cache.NewMockCache()
+		be := &faultyBackend{MockCache: mock}
+		lru, err := cache.WrapWithLRUCache(be, "f", nil, 10, time.Hour, log.NewNopLogger())
+		if err != nil {
+			t.Fatal(err)
+		}
+		_ = lru.Set(ctx, "k", []byte("old"), 2*time.Second)
+		be.failing = true
+		err = lru.Set(ctx, "k", []byte("new"), time.Second)
+		be.failing = false
+		r1 := lru.GetMulti(ctx, []string{"k"})
+		mock.Advance(time.Second)
+		time.Sleep(time.Second)
+		r2 := lru.GetMulti(ctx, []string{"k"})
+		t.Logf("Set error=%v; read after failed Set=%q; read 1s later=%q", err, r1["k"], r2["k"])
+		if err == nil || string(r1["k"]) != "new" || string(r2["k"]) != "old" {
+			t.Fatalf("finding not reproduced")
+		}
+	})
 }
